@@ -9,6 +9,7 @@
 //   ev snap <j>                 store j's current advertisement;  ev deliver <i> <j>: i processes the stored one
 //   obs <i> <dirty 0|1|x> nb=<j,j,..|-> rib=<entry;entry..|-> adv=<d/nh/cost/other;..|-> ent=<d/cost/nh;..|->
 //        entry = d/nh1/l1/nh2/l2/dirty/h=c,h=c..      (everything sorted by key)
+//   chkquiet       nobody has an unfetched announcement left (notification-driven schedule ran to quiescence)
 //   chk <r>        the harness claims >= r complete rounds since the last topology change (runner verifies)
 //   chkclean <r>   same, and no loss event happened since the start of the case
 //   end
@@ -78,8 +79,18 @@ type world struct {
 	rounds     int              // complete rounds since the last topology change
 	roundStart int              // evc at the start of the current round
 	slots      map[int]snapshot // latest stored advertisement per sender
+	need       map[[2]int]bool  // (i, j): j announced a change (or is new to i) that i has not fetched yet
 	delivered  bool             // some stored advertisement was delivered so far
 	unclean    bool             // the history so far is not a loss-free history of atomic fetches followed by valid rounds
+}
+
+// router i flagged a change: every router that has i as a neighbour is told (Sync Interest with a new sequence number)
+func (w *world) announce(i int) {
+	for k := 0; k < w.n; k++ {
+		if w.rt[k] != nil && w.nbr[k][i] {
+			w.need[[2]int{k, i}] = true
+		}
+	}
 }
 
 func (w *world) topoChanged() {
@@ -258,6 +269,7 @@ func (w *world) evRup(i int) {
 		w.nbr[i] = map[int]bool{}
 		w.settle()
 		w.seq[i] = w.rt[i].Vf18AdvertSeq()
+		w.announce(i)
 		w.topoChanged()
 	}
 	w.obs(i, "x")
@@ -272,6 +284,11 @@ func (w *world) evRdown(i int) {
 		w.rt[i].Vf18StopNfdc()
 		w.rt[i] = nil
 		w.nbr[i] = map[int]bool{}
+		for p := range w.need {
+			if p[0] == i {
+				delete(w.need, p)
+			}
+		}
 		w.topoChanged()
 	}
 }
@@ -285,6 +302,7 @@ func (w *world) evUp(i, j int) {
 	w.rt[i].Vf18AddNeighbor(w.names[j])
 	if !w.nbr[i][j] {
 		w.nbr[i][j] = true
+		w.need[[2]int{i, j}] = true
 		w.topoChanged()
 	}
 	w.settle()
@@ -313,8 +331,13 @@ func (w *world) evDead(i, j int) {
 	}
 	w.rt[i].Vf18CheckDead()
 	delete(w.nbr[i], j)
+	delete(w.need, [2]int{i, j})
 	w.settle()
-	w.obs(i, w.dirtyOf(i))
+	d := w.dirtyOf(i)
+	if d == "1" {
+		w.announce(i)
+	}
+	w.obs(i, d)
 }
 
 // several neighbours of i are found dead by ONE sweep of checkDeadNeighbors (= consecutive NbrDead events)
@@ -345,9 +368,12 @@ func (w *world) evDeadMulti(i int, js []int) {
 			changed = true
 		}
 		delete(w.nbr[i], j)
+		delete(w.need, [2]int{i, j})
 	}
 	w.settle()
-	w.dirtyOf(i)
+	if w.dirtyOf(i) == "1" {
+		w.announce(i)
+	}
 	w.obs(i, "x")
 	if changed {
 		w.topoChanged()
@@ -364,8 +390,13 @@ func (w *world) evFetch(i, j int) {
 	if w.rt[j] != nil && w.nbr[i][j] {
 		w.rt[i].Vf18RibUpdate(w.names[j], w.advertOf(j))
 		w.settle()
+		delete(w.need, [2]int{i, j})
 	}
-	w.obs(i, w.dirtyOf(i))
+	d := w.dirtyOf(i)
+	if d == "1" {
+		w.announce(i)
+	}
+	w.obs(i, d)
 }
 
 // store router j's current advertisement (as a neighbour would receive it) for a later, stale delivery
@@ -399,8 +430,38 @@ func (w *world) evDeliver(i, j int) {
 	if w.nbr[i][j] {
 		w.rt[i].Vf18RibUpdate(w.names[j], sn.adv)
 		w.settle()
+		w.need[[2]int{i, j}] = true // it may not have been j's latest advertisement
 	}
-	w.obs(i, w.dirtyOf(i))
+	d := w.dirtyOf(i)
+	if d == "1" {
+		w.announce(i)
+	}
+	w.obs(i, d)
+}
+
+// notification-driven schedule, as the real protocol runs: a router fetches a neighbour's advertisement only when
+// that neighbour announced a change; run until nobody has anything left to fetch
+func (w *world) quiesce() {
+	for steps := 0; ; steps++ {
+		ps := [][2]int{}
+		for p := range w.need {
+			if w.rt[p[0]] != nil && w.rt[p[1]] != nil && w.nbr[p[0]][p[1]] {
+				ps = append(ps, p)
+			}
+		}
+		if len(ps) == 0 {
+			break
+		}
+		if steps > 20000 {
+			fmt.Fprintf(w.w, "noquiet %d\n", steps)
+			return
+		}
+		sort.Slice(ps, func(a, b int) bool { return ps[a][0] < ps[b][0] || (ps[a][0] == ps[b][0] && ps[a][1] < ps[b][1]) })
+		p := ps[w.r.Intn(len(ps))]
+		w.evFetch(p[0], p[1])
+	}
+	w.obsAll()
+	fmt.Fprintf(w.w, "chkquiet\n")
 }
 
 // one transfer for the pair: atomic, or a stale advertisement generated earlier in the current round
@@ -530,6 +591,9 @@ func (w *world) detectAll() {
 
 func (w *world) converge(clean bool) {
 	w.detectAll()
+	if !clean && w.r.Intn(4) != 0 {
+		w.quiesce()
+	}
 	md := w.maxDist()
 	rounds := 16 + md + 1
 	kind := "chk"
@@ -676,7 +740,7 @@ func allConnected(n int) [][][2]int {
 func runCase(t *testing.T, out *bufio.Writer, r *rand.Rand, k int, kind string, n int, edges [][2]int, faults int) string {
 	fail := ""
 	synctest.Test(t, func(t *testing.T) {
-		w := &world{t: t, w: out, r: r, n: n, byHash: map[uint64]int{}, slots: map[int]snapshot{}, pending: map[[2]int]bool{}}
+		w := &world{t: t, w: out, r: r, n: n, byHash: map[uint64]int{}, slots: map[int]snapshot{}, pending: map[[2]int]bool{}, need: map[[2]int]bool{}}
 		// random router names: the hash order (the tie-break key) is unrelated to the index order
 		for len(w.names) < n {
 			nm, _ := enc.NameFromStr(fmt.Sprintf("/net/r%d", r.Intn(1000000)))
@@ -808,7 +872,7 @@ func TestReplay(t *testing.T) {
 	out := bufio.NewWriterSize(f, 1<<20)
 	defer out.Flush()
 	synctest.Test(t, func(t *testing.T) {
-		w := &world{t: t, w: out, byHash: map[uint64]int{}, slots: map[int]snapshot{}, pending: map[[2]int]bool{}}
+		w := &world{t: t, w: out, byHash: map[uint64]int{}, slots: map[int]snapshot{}, pending: map[[2]int]bool{}, need: map[[2]int]bool{}}
 		idx := func(s string) int {
 			k, _ := strconv.Atoi(strings.TrimPrefix(s, "n"))
 			return k
@@ -862,7 +926,7 @@ func TestReplay(t *testing.T) {
 				case "deliver":
 					w.evDeliver(idx(p[2]), idx(p[3]))
 				}
-			case "chk", "chkclean":
+			case "chk", "chkclean", "chkquiet":
 				start()
 				w.obsAll()
 				fmt.Fprintln(out, line)
